@@ -541,8 +541,9 @@ PRIMS = (int, float, str, bytes, bool, type(None))
 
 
 class IoC:
-    def __init__(self, content, pos, cls):
+    def __init__(self, content, pos, cls, ident=None):
         self.content, self.pos, self._cls = content, pos, cls
+        self._oid = ident           # identity of the real buffer object (two attributes may share one buffer)
 
 
 class CGrid:
@@ -602,9 +603,9 @@ def cview(o):
     if isinstance(o, type):
         return ClassConst(class_name(o))
     if isinstance(o, io.BytesIO):
-        return IoC(o.getvalue(), o.tell(), 'io.BytesIO')
+        return IoC(o.getvalue(), o.tell(), 'io.BytesIO', id(o))
     if isinstance(o, io.StringIO):
-        return IoC(o.getvalue(), o.tell(), 'io.StringIO')
+        return IoC(o.getvalue(), o.tell(), 'io.StringIO', id(o))
     if isinstance(o, tuple):
         return tuple(cview(x) for x in o)
     if isinstance(o, CGrid):
@@ -665,7 +666,7 @@ def freeze(o, memo):
     if id(o) in memo:
         return memo[id(o)]
     if isinstance(o, (io.BytesIO, io.StringIO)):
-        r = IoC(o.getvalue(), o.tell(), 'io.BytesIO' if isinstance(o, io.BytesIO) else 'io.StringIO')
+        r = IoC(o.getvalue(), o.tell(), 'io.BytesIO' if isinstance(o, io.BytesIO) else 'io.StringIO', id(o))
         memo[id(o)] = r
         return r
     if is_grid(o):
